@@ -373,6 +373,7 @@ func (r *reader) initNodes(tr io.Reader) error {
 		var wantNextOffsetID []uint32
 		var lastEntBucketID uint32
 		var lastEntSize int64
+		var lastChunkOffset int64
 		var attr metadata.Attr
 		var ent estargz.TOCEntry
 		for dec.More() {
@@ -389,10 +390,16 @@ func (r *reader) initNodes(tr io.Reader) error {
 				if ent.Type == "chunk" {
 					fileSize = lastEntSize
 				}
-				if ent.ChunkOffset > fileSize || ent.ChunkSize > fileSize-ent.ChunkOffset {
+				if ent.ChunkOffset > fileSize || ent.ChunkSize > fileSize-ent.ChunkOffset ||
+					(fileSize > 0 && ent.ChunkOffset == fileSize) {
 					return fmt.Errorf("invalid entry %q: chunk (offset=%d, size=%d) exceeds the file size %d",
 						ent.Name, ent.ChunkOffset, ent.ChunkSize, fileSize)
 				}
+				if ent.Type == "chunk" && ent.ChunkOffset <= lastChunkOffset {
+					return fmt.Errorf("invalid entry %q: chunk offset %d doesn't follow the previous chunk (offset=%d)",
+						ent.Name, ent.ChunkOffset, lastChunkOffset)
+				}
+				lastChunkOffset = ent.ChunkOffset
 			}
 			if ent.Type == "chunk" {
 				if lastEntBucketID == 0 {
